@@ -23,6 +23,7 @@ import (
 	"github.com/getlantern/zenodb/common"
 	"github.com/getlantern/zenodb/metrics"
 	"github.com/getlantern/zenodb/planner"
+	"github.com/getlantern/zenodb/simhook"
 	"github.com/getlantern/zenodb/sql"
 	"github.com/go-redis/redis/v8"
 	"github.com/oxtoacart/bpool"
@@ -434,6 +435,9 @@ func (db *DB) capWALAge(wal *wal.WAL, stop <-chan interface{}) {
 		case <-stop:
 			return
 		default:
+			if simhook.Enabled {
+				simhook.Pace(ticker.C, stop)
+			}
 			db.waitForBackupToFinish(stop)
 			err := wal.TruncateToSize(int64(db.opts.MaxWALSize))
 			if err != nil {
@@ -467,6 +471,9 @@ func (db *DB) updateMemStats() {
 	}
 	memstats := &runtime.MemStats{}
 	runtime.ReadMemStats(memstats)
+	if simhook.Enabled {
+		memstats.Alloc = simhook.Memory(db, memstats.Alloc)
+	}
 	atomic.StoreUint64(&db.memory, memstats.Alloc)
 	mem := &memoryInfo{
 		mi:       mi,
